@@ -1092,6 +1092,7 @@ func redisConfig(port int, strategy int32, connectTimeout time.Duration) *servic
 }
 
 var simProxyIdle time.Duration // when set: the idle timeout of the next service started
+var simProxyCompress uint32    // when set: the next service started compresses values of at least this many bytes
 
 func startRedisProxy(seeds []string, strategy int32) *simProxy {
 	// no periodic refresh: the routing table only follows triggers (start, redirections, unreachable nodes)
@@ -1103,6 +1104,9 @@ func startRedisProxy(seeds []string, strategy int32) *simProxy {
 	cfg.Listener.ConnectionLimit = simProxyLimit
 	if simProxyIdle > 0 {
 		cfg.IdleTimeout = utils.DurationPtr(simProxyIdle)
+	}
+	if simProxyCompress > 0 {
+		cfg.GetRedisOption().Compression = &predis.Compression{Enable: true, Algorithm: predis.Compression_SNAPPY, Threshold: simProxyCompress}
 	}
 	if err := cfg.Validate(); err != nil {
 		die("sim config: %v", err)
